@@ -4,9 +4,9 @@ Finite abstract evaluation of qb_loop_run's do-while body over
 p_stop in {LOW, MED, HIGH} (values read from enum qb_loop_priority)."""
 from engine.qb import (cmp_forms, AnalysisBroken, abstract_run, atoms_of, estr, unwrap, cval, walk, last_field, fields_of,
                        callee_of, mentions_var, _eval, TOP)
-from rules.common import field_is, has_call, const_leaves
+from rules.common import value_sources, field_is, has_call, const_leaves
 
-UNITS = ['lib/loop.c', 'lib/loop_job.c']
+UNITS = ['lib/loop.c', 'lib/loop_job.c', 'lib/loop_poll_epoll.c']
 DECIDES = ('Decides, by finite abstract evaluation of the loop body over p_stop, that the rotation is a single 3-cycle serving '
            'every level with HIGH >= MED >= LOW >= 1 dispatch opportunities, that each level run dispatches at least one pending item '
            'from the list head while items are appended at the tail, and that the loop does not block while work is pending.')
@@ -16,8 +16,9 @@ RULES = {
     'R3': 'a level run dispatches >= 1 item when its list is non-empty (to_process constant >= 1, single writer), takes the first entry; items are appended at the tail',
     'R5': 'queued jobs are promoted to the run list on every iteration for every level, depending only on the wait list being non-empty; job/timer sources are polled in every iteration',
     'R4': 'ms_timeout is non-zero only when remaining_todo <= 0 and timer_todo <= 0; remaining_todo sums todo of all levels',
+    'R6': 'a ready descriptor is handed to its level in the iteration in which it is ready, however many others are: the epoll driver repeats its bounded batch (without waiting) while the batch came back full, or asks for as many events as there are entries',
 }
-FLOORS = {'R1': 3, 'R2': 5, 'R3': 8, 'R4': 7, 'R5': 4}
+FLOORS = {'R1': 3, 'R2': 5, 'R3': 8, 'R4': 7, 'R5': 4, 'R6': 1}
 
 
 def run(ctx):
@@ -110,6 +111,7 @@ def run(ctx):
     r3(ctx, levels)
     r4(ctx, f, rot, ix, levels, summed, polls[0], body)
     r5(ctx, f, levels, polls[0], hdr)
+    r6(ctx)
 
 
 def r3(ctx, levels):
@@ -279,3 +281,36 @@ def r5(ctx, f, levels, fdpoll, hdr):
     ctx.check('R5', 'every-iteration-polls-fd_source', not h3, fdpoll,
               'every iteration polls the descriptors before it dispatches a level',
               'an iteration can dispatch without having polled the descriptors: while jobs or timers keep the loop busy, ready descriptors and signals are never looked at (starved)')
+
+
+def r6(ctx):
+    prog = ctx.prog
+    f = prog.fn('_poll_and_add_to_jobs_')
+    waits = list(f.calls('epoll_wait'))
+    if len(waits) != 1:
+        raise AnalysisBroken('_poll_and_add_to_jobs_: epoll_wait calls = %d' % len(waits))
+    w = waits[0]
+    cap = unwrap(w.args[2])
+    capc = cval(cap)
+    # (a) capacity follows the number of entries
+    follows = any(n.get('k') == 'mem' and n.get('f') == 'poll_entry_count' for n in walk(cap))
+    if not follows and cap.get('k') == 'var':
+        srcs, _e = value_sources(f, cap, w)
+        follows = any(any(n.get('k') == 'mem' and n.get('f') == 'poll_entry_count' for n in walk(x)) for x in srcs)
+    # (b) the call is repeated while the batch was full: an edge "result == capacity" (or >=) leads back to the call, with a zero timeout
+    loops_back = False
+    for b in f.blocks.values():
+        if b.cond is None:
+            continue
+        for (t, lab) in b.succs:
+            if lab not in (True, False):
+                continue
+            if any(a.op in ('==', '>=') and a.rc is not None and a.rc == capc for a in atoms_of(b.cond, lab)):
+                hits, _e2, _n2 = f.search(('edge', b.id, t), goal=lambda ev: ev.d is w.d)
+                zero = [st for st in f.events('STORE') if estr(st.lhs) == estr(w.args[3]) and cval(unwrap(st.rhs)) == 0]
+                if hits and zero and any(f.may_follow(z, w) for z in zero):
+                    loops_back = True
+    ctx.check('R6', 'driver-collects-every-ready-descriptor', follows or loops_back, w,
+              'the driver %s' % ('sizes its batch by the number of entries' if follows else 'repeats its batch of %s without waiting while it came back full' % capc),
+              'the driver asks for at most %s events per iteration and does not go round: with more ready descriptors than that, a ready descriptor only reaches its level every '
+              'N/%s-th iteration, so a level with pending work can go more than three iterations without a dispatch and a higher priority gets fewer opportunities than a lower one' % (capc, capc))
